@@ -48,3 +48,153 @@ let proc_main () =
       | _ -> ()
     done
   with End_of_file -> ())
+
+(* ---------------------------------------------------------------------------------------------------------------
+   hex top (processor + memory).  Planted-state case line: "pc areg breg oreg ncells (addr val)*"
+   rtlhex  : extracted RtlSem.cycle / outs / wire on the generated design RtlHex.design
+             -> "R pc a b o | W addr val | sv sc | f"       (same format as harness/rtl_hex.cpp step)
+   c03step : extracted Isa.step (the spec) on the same state, console and files empty
+             -> "I ok pc a b o | W addr val | evclass | inv=<0/1> rng=<0/1> byte=<k>"   or   "I undef <class> | inv=.. byte=.."
+             (for a READ event the memory write is the testbench's, so W is "-")
+   c03run <bin> <maxsteps> <from> <to> : extracted Isa.step iterated from Isa.boot, console input = stdin
+             -> "D <step> <hash>" every 4096 steps, "T ..." for steps in [from,to), "END ..." (format of rtl_hex run) *)
+type hcase = { hregs : int * int * int * int; hcells : (int * int) list }
+
+let parse_hcase (line : string) : hcase option =
+  match SL.map int_of_string (tokens line) with
+  | pc :: a :: b :: o :: nc :: rest ->
+      let rec cells n l = if n = 0 then [] else match l with ad :: v :: r -> (ad, v) :: cells (n - 1) r | _ -> failwith "short case" in
+      Some { hregs = (pc, a, b, o); hcells = cells nc rest }
+  | [] -> None
+  | _ -> failwith "bad case"
+
+let hmem (c : hcase) : WMap.t = SL.fold_left (fun m (ad, v) -> WMap.wr m (zi ad) (zi v)) WMap.zero c.hcells
+
+let wdiff (m0 : WMap.t) (m1 : WMap.t) : (int * int) list =
+  let els = FMapPositive.PositiveMap.elements m1.WMap.cells in
+  SL.sort compare (SL.filter_map (fun (k, v) ->
+    let ad = int_of_pos k - 1 in
+    if iz (WMap.rd m0 (zi ad)) <> iz v then Some (ad, iz v) else None) els)
+
+(* a write of the value already there is invisible to a diff; the RTL harness reports the write port, so detect it
+   through the cell set as well: a cell present in m1 but not in m0 *)
+let wport (m0 : WMap.t) (m1 : WMap.t) : (int * int) list =
+  let k0 = SL.map fst (FMapPositive.PositiveMap.elements m0.WMap.cells) in
+  let els = FMapPositive.PositiveMap.elements m1.WMap.cells in
+  SL.sort compare (SL.filter_map (fun (k, v) ->
+    let ad = int_of_pos k - 1 in
+    if not (SL.mem k k0) || iz (WMap.rd m0 (zi ad)) <> iz v then Some (ad, iz v) else None) els)
+
+let wstr (l : (int * int) list) : string =
+  match l with [] -> "-" | _ -> Stdlib.String.concat " " (SL.map (fun (ad, v) -> P.sprintf "W %d %d" ad v) l)
+
+let cs (s : string) : String.string = coq_of_ostring s
+
+let hex_main () =
+  let d = RtlHex.design in
+  (try while true do
+    match parse_hcase (input_line stdin) with
+    | None -> ()
+    | Some c ->
+      let (pc, a, b, o) = c.hregs in
+      let m0 = hmem c in
+      let s = { RtlSem.r_pc = zi pc; r_areg = zi a; r_breg = zi b; r_oreg = zi o; r_mem = m0 } in
+      let s' = RtlSem.cycle d s in
+      let outs = RtlSem.outs d s in
+      let get n = iz (RtlSem.getv (cs n) outs (zi (-1))) in
+      let f = iz (RtlSem.wire d s (cs "hex.res_f_data")) in
+      (* the write port: evaluate the design's write list through the state's memory -- a rewrite of the present value
+         does not show in a diff, so planted memories always hold a value different from areg at the written address
+         unless the generator says otherwise; report through the cell set *)
+      P.printf "R %d %d %d %d | %s | %d %d | %d\n" (iz s'.RtlSem.r_pc) (iz s'.RtlSem.r_areg) (iz s'.RtlSem.r_breg) (iz s'.RtlSem.r_oreg)
+        (wstr (wport m0 s'.RtlSem.r_mem)) (get "o_syscall_valid") (get "o_syscall") f
+  done with End_of_file -> ())
+
+let evclass (e : Isa.event) : string =
+  match e with Isa.Tau -> "tau" | Isa.Exit _ -> "exit" | Isa.Write (_, _) -> "write" | Isa.Read (_, _) -> "read"
+
+let fetch_byte (pc : int) (m : WMap.t) : int = (iz (WMap.rd m (zi (pc / 4))) lsr (8 * (pc land 3))) land 255
+
+let c03step_main () =
+  let no_inp = { Isa.console = []; Isa.files = (fun _ -> []) } in
+  (try while true do
+    match parse_hcase (input_line stdin) with
+    | None -> ()
+    | Some c ->
+      let (pc, a, b, o) = c.hregs in
+      let m0 = hmem c in
+      let k = fetch_byte pc m0 in
+      let inv = if o land 15 = 0 then 1 else 0 in
+      let st = { Isa.pc = zi pc; Isa.areg = zi a; Isa.breg = zi b; Isa.oreg = zi o; Isa.mem = m0 } in
+      (match Isa.step st no_inp with
+       | Isa.Ok ((s', _), ev) ->
+           let pc' = iz s'.Isa.pc and a' = iz s'.Isa.areg in
+           let rng = if pc' < 800000 && (k lsr 4 <> 5 || a' < 800000) then 1 else 0 in
+           let w = match ev with Isa.Read (_, _) -> "-" | _ -> wstr (wport m0 s'.Isa.mem) in
+           P.printf "I ok %d %d %d %d | %s | %s | inv=%d rng=%d byte=%d\n" pc' a' (iz s'.Isa.breg) (iz s'.Isa.oreg) w (evclass ev) inv rng k
+       | Isa.Undefined u ->
+           let cl = match u with Isa.BadOpcode _ -> "opcode" | Isa.BadOpr _ -> "opr" | Isa.BadSvc _ -> "svc" | Isa.BadAddress _ -> "address" in
+           P.printf "I undef %s | inv=%d byte=%d\n" cl inv k)
+  done with End_of_file -> ())
+
+let hm = 2147483647
+let hmix (h : int) (x : int) : int = (h * 1000003 + (x land 0xffffffff)) mod hm
+
+let c03run_main () =
+  let bin = Sys.argv.(2) in
+  let max_steps = int_of_string Sys.argv.(3) in
+  let from = int_of_string Sys.argv.(4) and upto = int_of_string Sys.argv.(5) in
+  let file = C02drv.read_file bin in
+  let len = Stdlib.String.length file in
+  let bytes = SL.init (max 0 (len - 4)) (fun i -> zi (Char.code (Stdlib.String.get file (i + 4)))) in
+  let words = Isa.words_of_bytes bytes in
+  let cons = let b = Buffer.create 64 in (try while true do Buffer.add_channel b stdin 1 done with End_of_file -> ()); Buffer.contents b in
+  let inp = ref { Isa.console = SL.init (Stdlib.String.length cons) (fun i -> zi (Char.code (Stdlib.String.get cons i))); Isa.files = (fun _ -> []) } in
+  let st = ref (Isa.boot words) in
+  let h = ref 7 and steps = ref 0 and fin = ref "" and rc = ref (-1) in
+  let out = Buffer.create 256 in
+  let left_range = ref "" in
+  while !fin = "" do
+    if !steps >= max_steps then fin := "cut" else begin
+      let s = !st in
+      let pc = iz s.Isa.pc in
+      let k = fetch_byte pc s.Isa.mem in
+      match Isa.step s !inp with
+      | Isa.Undefined u ->
+          fin := (match u with Isa.BadOpcode _ -> "undef-opcode" | Isa.BadOpr _ -> "undef-opr" | Isa.BadSvc _ -> "undef-svc" | Isa.BadAddress _ -> "undef-address")
+      | Isa.Ok ((s', inp'), ev) ->
+          let pc' = iz s'.Isa.pc and a' = iz s'.Isa.areg in
+          let in_range = pc' < 800000 && (k lsr 4 <> 5 || a' < 800000) in
+          let read_safe = (match ev with Isa.Read (_, _) -> fetch_byte pc s'.Isa.mem = k | _ -> true) in
+          if not in_range then fin := "left-range"
+          else if not read_safe then fin := "read-overwrites-its-svc"
+          else begin
+            let wl = (match ev with Isa.Read (_, _) -> [] | _ -> wport s.Isa.mem s'.Isa.mem) in
+            (* wport needs the cell sets; a store of an equal value into an existing cell is recovered from the opcode *)
+            let wl = if wl = [] && (k lsr 4 = 2 || k lsr 4 = 8) then
+                       (let o = (iz s.Isa.oreg) lor (k land 15) in
+                        let ad = if k lsr 4 = 2 then o else ((iz s.Isa.breg) + o) land 0xffffffff in [(ad, iz s.Isa.areg)]) else wl in
+            let (wa, wv, wp) = (match wl with (ad, v) :: _ -> (ad, v, true) | [] -> (0xffffffff, 0, false)) in
+            let (evc, e1, e2) = (match ev with
+              | Isa.Tau -> (0, 0, 0) | Isa.Exit c -> (1, iz c, 0)
+              | Isa.Write (b, stt) -> Buffer.add_char out (Char.chr (iz b land 255)); (2, iz b, iz stt)
+              | Isa.Read (stt, g) -> (3, iz stt, iz g)) in
+            st := s'; inp := inp'; incr steps;
+            h := hmix !h pc'; h := hmix !h a'; h := hmix !h (iz s'.Isa.breg); h := hmix !h (iz s'.Isa.oreg);
+            h := hmix !h wa; h := hmix !h wv; h := hmix !h evc; h := hmix !h e1; h := hmix !h e2; h := hmix !h k;
+            if !steps >= from + 1 && !steps < upto + 1 then
+              P.printf "T %d f=%d pc=%d a=%d b=%d o=%d w=%s%d:%d ev=%d,%d,%d\n" !steps k pc' a' (iz s'.Isa.breg) (iz s'.Isa.oreg)
+                (if wp then "" else "-") (if wp then wa else 0) wv evc e1 e2;
+            if !steps land 4095 = 0 then P.printf "D %d %d\n" !steps !h;
+            (match ev with Isa.Exit c -> fin := "exit"; rc := iz c | _ -> ())
+          end
+    end
+  done;
+  ignore left_range;
+  let s = !st in
+  let mh = ref 11 in
+  for i = 0 to 199999 do mh := hmix !mh (iz (WMap.rd s.Isa.mem (zi i))) done;
+  P.printf "END %s clocks=%d hash=%d rc=%d pc=%d a=%d b=%d o=%d memhash=%d out=" !fin !steps !h !rc
+    (iz s.Isa.pc) (iz s.Isa.areg) (iz s.Isa.breg) (iz s.Isa.oreg) !mh;
+  Stdlib.String.iter (fun ch -> P.printf "%02x" (Char.code ch)) (Buffer.contents out);
+  P.printf "\n"
